@@ -179,3 +179,9 @@ pub(crate) fn get_missing_files<S>(
     let (hot_only, hot_only_size) = retain(hot_files);
     Ok((cold_only, cold_only_size, hot_only, hot_only_size))
 }
+
+#[cfg(rustic_core_verif)]
+#[allow(missing_docs, unused_imports, dead_code, clippy::all, clippy::pedantic, clippy::nursery)]
+pub mod verif_hooks {
+    use super::*;
+}
